@@ -620,7 +620,15 @@ func (r *stateResolverV2) calculateFullAuthChainAndConflictedSubgraph(
 			conflictedSubgraphEventIDs := append(slices.Clone(curr.visiting), curr.pdu.EventID())
 			fmt.Printf("found conflicted subgraph %v\n", conflictedSubgraphEventIDs)
 			for _, eventID := range conflictedSubgraphEventIDs {
-				conflictedSubgraph.Insert(r.authEventMap[eventID])
+				// The start of a path is a conflicted state event, which need not
+				// be one of the supplied auth events.
+				ev, ok := r.authEventMap[eventID]
+				if !ok {
+					ev, ok = r.conflictedEventMap[eventID]
+				}
+				if ok {
+					conflictedSubgraph.Insert(ev)
+				}
 			}
 		}
 
